@@ -230,6 +230,12 @@ func (t *tcpDriver) handleProbeLayers() (*common.ProbeResponse, error) {
 			return nil, &common.BadPacketError{Err: fmt.Errorf("tcpDriver failed to get ICMP info: %w", err)}
 		}
 
+		// the quoted packet must be a TCP segment: a UDP datagram with the same port numbers is
+		// another flow
+		if icmpInfo.WrappedProtocol != layers.IPProtocolTCP {
+			return nil, common.ErrPacketDidNotMatchTraceroute
+		}
+
 		// make sure the source/destination match
 		tcpInfo, err := packets.ParseTCPFirstBytes(icmpInfo.Payload)
 		if err != nil {
